@@ -1,13 +1,232 @@
-(* Props/C06.v — placeholder: restates the writer-chain theorem; extended as the proofs land. *)
-From Coq Require Import List.
-Import ListNotations.
-From TH Require Import Conc.SeqWriter.
-Theorem c06_chain_stream_is_ordered_concat :
-  forall (byte : Type) (ls : list (label byte)) (s : st byte),
-    run byte true (init byte) ls = Some s -> stream byte s = concat (map (sent byte) (ws byte s)).
-Proof. exact ordered_not_interleaved. Qed.
-Print Assumptions c06_chain_stream_is_ordered_concat.
-Theorem c06_chain_asfound_refuted :
-  exists ls s, run nat false (init nat) ls = Some s /\ stream nat s <> concat (map (sent nat) (ws nat s)).
-Proof. exact unfixed_refuted. Qed.
-Print Assumptions c06_chain_asfound_refuted.
+(* Props/C06.v — C06: every request handed to the application results in exactly one final response
+   on its connection (the one passed to respond, the raw writer's bytes, the 101 of upgrade, or an
+   automatic 500 for a dropped request); none is answered twice or left unanswered, and a dropped
+   request does not hold up the responses that follow it.
+
+   ==== Section 1: one connection, sequential application (serve / serve_loop, cfg = fixed) ====
+   Proofs in Http/WireFacts.v (decomposition of the wire) and Http/WireParseFacts.v (the wire read
+   back by the independent client parser of ClientSpec.v). Chain-level theorems (task pool, message
+   queue, sequential writer) belong to a later section of this file. *)
+From TH Require Import Base.Bytes Http.Response Http.Request Http.Body Http.Serve Http.ServeFacts
+  Http.ServeStreamFacts Http.ClientSpec Http.C04Facts Http.ServeRefuseFacts Http.C12ManyFacts Http.C18Facts
+  Http.WireFacts Http.WireParseFacts.
+
+(* ---- 1. decomposition of the wire, for EVERY input ----
+   Vocabulary (Http/WireFacts.v):
+     contribution date a d  = [interim 100 Continue, iff the request expects it (expects_of, a
+                               function of its headers) and the action asks for the body]
+                              ++ [final_bytes of the action: respond / 500 / raw bytes / 101], the
+                              latter absent exactly when the handler is stuck reading the body
+                              (d_end d = EndBlock: the client neither sends it nor closes);
+     seg                    = SReq a d (a delivered request with the action applied to it)
+                            | S505 (a head of version 2.0/3.0: answered 505, not delivered)
+                            | SRefuse st ver nb (a refused head);
+     seg_bytes / segs_bytes = contribution / bytes_505 / error_bytes, concatenated in order;
+     seg_reqs               = the (action, request) pairs of the SReq segments, in order;
+     used_actions script dflt n = the first n actions: the script, then the default;
+     terminal sg            = nothing follows: a refusal, a blocked request, a last_request;
+     seg_ok                 = a refusal is 400 (with body) or 417 (without); delivered versions <= 1.1.
+   The wire is the concatenation of the segments; the SReq segments are exactly the delivered
+   requests, in delivery order, each with its own action; a terminal segment is the last one; and
+   the run ends stuck (CHang; in particular never by fuel exhaustion) iff its last request blocked;
+   after any other terminal segment (refusal, last request) the server closes. *)
+Theorem c06_wire_decomposition : forall date script dflt input eof,
+  let o := serve fixed date script dflt input eof in
+  exists segs : list seg,
+    o_wire o = segs_bytes date segs /\
+    map snd (seg_reqs segs) = o_reqs o /\
+    map fst (seg_reqs segs) = used_actions script dflt (List.length (o_reqs o)) /\
+    (forall pre sg post, segs = pre ++ sg :: post -> seg_ok sg /\ (terminal sg = true -> post = [])) /\
+    (o_end o = CHang <-> existsb seg_blocked segs = true) /\
+    (existsb terminal segs = true -> existsb seg_blocked segs = false -> o_end o = CClosed).
+Proof. exact wire_decomposition. Qed.
+Print Assumptions c06_wire_decomposition.
+
+(* the same for the loop in any state (accumulated wire and requests), any fuel above the number of
+   pending bytes; trace_spec is the conjunction above (with trace_ok, see c06_trace_ok_spec, and
+   end_spec = the last two conjuncts) relative to the accumulators *)
+Theorem c06_loop_decomposition : forall date dflt f script st wire reqs al ok,
+  (slen st < f)%nat ->
+  exists segs, trace_spec date script dflt wire reqs
+                 (serve_loop fixed date f script dflt st wire reqs al ok) segs.
+Proof. exact loop_trace. Qed.
+Print Assumptions c06_loop_decomposition.
+
+(* reading a segment list without 505s: one contribution per delivered request, in order, followed
+   by [] or the bytes of a single 400/417 refusal *)
+Theorem c06_segments_without_505 : forall date segs,
+  trace_ok segs -> forallb (fun sg => negb (is_505 sg)) segs = true ->
+  segs_bytes date segs = List.concat (map (contrib_of date) (seg_reqs segs)) ++ refusal_tail date segs /\
+  (refusal_tail date segs = [] \/ is_refusal date (refusal_tail date segs)).
+Proof. exact segs_bytes_no505. Qed.
+Print Assumptions c06_segments_without_505.
+
+Theorem c06_trace_ok_spec : forall segs, trace_ok segs <->
+  forall pre sg post, segs = pre ++ sg :: post -> seg_ok sg /\ (terminal sg = true -> post = []).
+Proof. exact trace_ok_spec. Qed.
+Print Assumptions c06_trace_ok_spec.
+
+(* ---- 2. seen by the client ---- *)
+(* the contribution of ANY delivered request answered by respond (status 100..999, body below
+   2^64 bytes) or dropped, within the modelled TE domain: an interim 100 response exactly when
+   contribution has one, then exactly one message with the status and body of the action
+   (expected_answer: 500 and no body for FDrop; no body for HEAD and 1xx/204/304), self-delimited,
+   and what follows it on the wire is what follows the contribution *)
+Theorem c06_contribution_parses : forall date a d w rest,
+  answerable a -> C04Facts.nolf date = true -> In (d_ver d) versions ->
+  te_wish (d_headers d) = Some w -> d_end d <> EndBlock ->
+  let h := is_head (d_method d) in
+  exists x p,
+    (if expects_of (d_headers d) && asks_body a
+     then exists p0, parse_response h (contribution date a d ++ rest) = Some p0 /\
+                     p_status p0 = 100%N /\ p_body p0 = [] /\ p_rest p0 = x
+     else x = contribution date a d ++ rest) /\
+    parse_response h x = Some p /\ (p_status p, p_body p) = expected_answer h a /\
+    p_rest p = rest /\ p_delim p <> UntilClose.
+Proof. exact contribution_parse. Qed.
+Print Assumptions c06_contribution_parses.
+
+(* a pipeline of k simple requests (GET <target> HTTP/1.1, Host: h), each answered by respond or
+   dropped, whatever each action reads: the k requests are delivered in order, and the client parser
+   splits the wire into exactly k messages, the i-th with the status and body of the i-th action,
+   nothing left over. In particular a dropped request is answered 500 in its place and the
+   responses after it follow. *)
+Theorem c06_one_final_response_per_request : forall date dflt script ts eof,
+  Forall good_target ts -> C04Facts.nolf date = true ->
+  Forall answerable (used_actions script dflt (List.length ts)) ->
+  let o := serve fixed date script dflt (pipeline ts) eof in
+  map d_url (o_reqs o) = ts /\
+  exists ps, parse_stream (repeat false (List.length ts)) (o_wire o) = (ps, []) /\
+             List.length ps = List.length ts /\
+             map status_body ps = map (expected_answer false) (used_actions script dflt (List.length ts)) /\
+             Forall (fun p => p_delim p <> UntilClose) ps.
+Proof. exact pipeline_parsed. Qed.
+Print Assumptions c06_one_final_response_per_request.
+
+Theorem c06_used_actions_nth : forall script dflt n i, (i < n)%nat ->
+  nth i (used_actions script dflt n) dflt = nth i script dflt.
+Proof. exact used_actions_nth. Qed.
+Print Assumptions c06_used_actions_nth.
+
+(* ---- 3. the final answer by kind of finish (d_end d <> EndBlock: the handler is not stuck) ---- *)
+Theorem c06_respond_bytes : forall date a d, d_end d <> EndBlock ->
+  forall code body declared, a_finish a = FRespond code body declared ->
+  contribution date a d =
+  (if expects_of (d_headers d) && asks_body a then interim date (d_ver d) (d_headers d) else []) ++
+  fst (render date (new_response code [] body (if declared then Some (len body) else None))
+              (d_ver d) (d_headers d) (is_head (d_method d)) None).
+Proof. exact respond_contribution. Qed.
+Print Assumptions c06_respond_bytes.
+
+Theorem c06_drop_gets_500 : forall date a d, d_end d <> EndBlock -> a_finish a = FDrop ->
+  contribution date a d =
+  (if expects_of (d_headers d) && asks_body a then interim date (d_ver d) (d_headers d) else []) ++
+  fst (render date (empty_response 500) (d_ver d) (d_headers d) (is_head (d_method d)) None).
+Proof. exact drop_contribution. Qed.
+Print Assumptions c06_drop_gets_500.
+
+Theorem c06_raw_writer_bytes : forall date a d, d_end d <> EndBlock ->
+  forall data, a_finish a = FWriter data ->
+  contribution date a d =
+  (if expects_of (d_headers d) && asks_body a then interim date (d_ver d) (d_headers d) else []) ++ data.
+Proof. exact writer_contribution. Qed.
+Print Assumptions c06_raw_writer_bytes.
+
+Theorem c06_upgrade_bytes : forall date a d, d_end d <> EndBlock ->
+  forall proto, a_finish a = FUpgrade proto ->
+  contribution date a d =
+  (if expects_of (d_headers d) && asks_body a then interim date (d_ver d) (d_headers d) else []) ++
+  fst (render date (empty_response 101) (d_ver d) (d_headers d) false (Some proto)).
+Proof. exact upgrade_contribution. Qed.
+Print Assumptions c06_upgrade_bytes.
+
+Theorem c06_no_interim : forall date a d, expects_of (d_headers d) = false \/ a_reads a = [] ->
+  contribution date a d =
+  (if is_block (d_end d) then [] else final_bytes date a (d_method d) (d_ver d) (d_headers d)).
+Proof. exact contribution_no_interim. Qed.
+Print Assumptions c06_no_interim.
+
+(* ---- 4. no response without a request ---- *)
+(* nothing delivered: the wire holds only 505 responses (one per head of version 2.0/3.0) and at
+   most one refusal *)
+Theorem c06_no_response_without_request : forall date script dflt input eof,
+  o_reqs (serve fixed date script dflt input eof) = [] ->
+  exists n tail, o_wire (serve fixed date script dflt input eof)
+                 = List.concat (repeat (bytes_505 date) n) ++ tail /\
+                 (tail = [] \/ is_refusal date tail).
+Proof. exact no_response_without_request. Qed.
+Print Assumptions c06_no_response_without_request.
+
+(* no complete head at all: nothing is sent *)
+Theorem c06_nothing_without_head : forall date script dflt input eof,
+  read_head fixed input = HeadEof ->
+  serve fixed date script dflt input eof = mkO [] [] (if eof then CClosed else COpen) [] true.
+Proof. exact nothing_without_head. Qed.
+Print Assumptions c06_nothing_without_head.
+
+(* ---- non-vacuity ---- *)
+Definition c06_ts : list bytes := [s "/a"; s "/b"; s "/c"].
+Definition c06_script : list action :=
+  [mkA [] (FRespond 200 (s "hello") true); mkA [(4%N, 2%nat)] FDrop].
+Definition c06_dflt : action := mkA [] (FRespond 404 (s "nf") false).
+
+Example c06_example_hyps :
+  Forall good_target c06_ts /\ C04Facts.nolf (s "D") = true /\
+  Forall answerable (used_actions c06_script c06_dflt (List.length c06_ts)).
+Proof.
+  split; [repeat constructor|split; [reflexivity|]].
+  repeat constructor; vm_compute; intros H; discriminate H.
+Qed.
+
+(* 200 with body / dropped / 404 (chunked, no declared length), parsed back by the client *)
+Example c06_example_pipeline :
+  let o := serve fixed (s "D") c06_script c06_dflt (pipeline c06_ts) true in
+  map d_url (o_reqs o) = c06_ts /\
+  (let '(ps, r) := parse_stream [false; false; false] (o_wire o) in
+   (map status_body ps, map p_delim ps, r))
+  = ([(200%N, s "hello"); (500%N, []); (404%N, s "nf")], [ByLength; ByLength; ByChunked], []).
+Proof. vm_compute. split; reflexivity. Qed.
+
+(* a delivered request, a 2.0 head (505 in place), a request with Expect answered through the raw
+   writer after reading the body (interim response first), then a bad request line (400, close) *)
+Definition c06_mixed : bytes :=
+  sr_bytes (s "/a") ++ s "GET /b HTTP/2.0" ++ CRLF ++ CRLF ++
+  s "POST /p HTTP/1.1" ++ CRLF ++ s "Content-Length: 3" ++ CRLF ++ s "Expect: 100-continue" ++ CRLF ++ CRLF ++
+  s "abc" ++ s "BAD" ++ CRLF ++ CRLF.
+Definition c06_a1 : action := mkA [] FDrop.
+Definition c06_a2 : action := mkA [(10%N, 4%nat)] (FWriter (s "RAW")).
+Example c06_example_decomposition :
+  let o := serve fixed (s "D") [c06_a1; c06_a2] c06_dflt c06_mixed false in
+  match o_reqs o with
+  | [d1; d2] =>
+      o_wire o = segs_bytes (s "D") [SReq c06_a1 d1; S505; SReq c06_a2 d2; SRefuse 400 (1, 1)%N false] /\
+      contribution (s "D") c06_a2 d2 = interim (s "D") (1, 1)%N (d_headers d2) ++ s "RAW" /\
+      d_read d2 = s "abc" /\ o_end o = CClosed
+  | _ => False
+  end.
+Proof. vm_compute. repeat split; reflexivity. Qed.
+
+(* the only unanswered request: the handler waits for a body the client never sends (no half-close) *)
+Example c06_example_blocked :
+  let o := serve fixed (s "D") [c06_a2] c06_dflt
+             (s "POST /p HTTP/1.1" ++ CRLF ++ s "Content-Length: 3" ++ CRLF ++ s "Expect: 100-continue" ++ CRLF ++ CRLF)
+             false in
+  match o_reqs o with
+  | [d] => d_end d = EndBlock /\ o_end o = CHang /\
+           o_wire o = interim (s "D") (1, 1)%N (d_headers d) /\ o_wire o = contribution (s "D") c06_a2 d
+  | _ => False
+  end.
+Proof. vm_compute. repeat split; reflexivity. Qed.
+
+(* a dropped HEAD request: 500, head only *)
+Example c06_example_drop_head :
+  let o := serve fixed (s "D") [] c06_a1 (s "HEAD /x HTTP/1.0" ++ CRLF ++ CRLF) true in
+  option_map (fun p => (p_status p, p_body p, p_rest p)) (parse_response true (o_wire o))
+  = Some (500%N, [], []) /\ List.length (o_reqs o) = 1%nat.
+Proof. vm_compute. split; reflexivity. Qed.
+
+Example c06_example_no_request :
+  o_reqs (serve fixed (s "D") [] c06_dflt (s "GET /b HTTP/3.0" ++ CRLF ++ CRLF ++ s "BAD" ++ CRLF) true) = [] /\
+  o_wire (serve fixed (s "D") [] c06_dflt (s "GET /b HTTP/3.0" ++ CRLF ++ CRLF ++ s "BAD" ++ CRLF) true)
+  = bytes_505 (s "D") ++ error_bytes (s "D") 400 (1, 1)%N false.
+Proof. vm_compute. split; reflexivity. Qed.
